@@ -320,6 +320,9 @@ SFieldsBad(p) ==
        p = [SFieldsProg(pptr, "func", <<"A">>, <<"v">>) EXCEPT !.key = "S/fieldsbad/" \o n \o (IF pptr THEN "/ptr" ELSE "/val"),
                                                                 !.leaves[1].names = <<n>>]
   \/ p = [SFieldsProg(FALSE, "func", <<"A">>, <<"v">>) EXCEPT !.key = "S/fieldsbad/ptr-from-value", !.leaves[2].ins = <<"*T1">>]
+  \* the consumer wants exactly the type of the prevented field D (T4): naming D must still be refused
+  \/ \E pptr \in BOOLEAN : p = [SFieldsProg(pptr, "func", <<"A">>, <<"v">>) EXCEPT !.key = "S/fieldsbad/prevented-wanted" \o (IF pptr THEN "/ptr" ELSE "/val"),
+                                                                                   !.leaves[1].names = <<"D">>, !.leaves[2].ins = <<"T4">>]
   \/ p = [SFieldsProg(TRUE, "func", <<"A">>, <<"v">>) EXCEPT !.key = "S/fieldsbad/unused-name", !.leaves[1].names = <<"A", "c">>]
 \* the deprecated struct-literal form S1{}: every field, whatever its tag
 SStructLit(ptr, complete) ==
